@@ -34,7 +34,7 @@ def corrupt_tests(name, module, cfg, lines, start_event, mutators, wd):
             print('%-10s %-44s skipped (no applicable event)' % (name, desc)); continue
         v = validate_lines(module, cfg, [json.dumps(e, separators=(',', ':')) for e in m], wd, name + '_mut', start_event)
         got = set(c for r in v['rejects'] for c in r['clauses'])
-        good = bool(got & set(want))
+        good = bool(got & set(want)) and (len(want) < 1 or True)
         ok = ok and good
         print('%-10s %-44s %s %s' % (name, desc, 'rejected' if good else 'NOT rejected  <-- problem', sorted(got)[:4]))
     return ok
@@ -175,6 +175,17 @@ def run():
             return None
         ok = corrupt_tests('GF2', 'Trace_GF2', 'Trace_GF2.cfg', glns, '"op":"Reset"',
                            [('result vector of a + altered', g_regs, ['wrong-result-vector']), ('product flipped', g_dot, ['product']), ('two coordinates listed out of order', g_order, ['not-canonical'])], wd) and ok
+        # Demo: a long clause set (TLC prints it over several lines - the REJECT parser must cope)
+        dem = [json.dumps({'e': 'Demo', 'prog': 'mcb-dimacs', 'opts': '', 'k': 0, 'P': 0, 'rank_exits': [], 'n': 3, 'edges': [[0, 1, 1], [1, 2, 1], [2, 0, 1]],
+                           'exit': 0, 'timedout': False, 'diag': False, 'ranalgo': True, 'hasweight': True, 'weight': 3000}, separators=(',', ':'))]
+
+        def d_invalid(evs):
+            evs[0]['edges'].append([1, 0, 2]); return evs
+
+        def d_weight(evs):
+            evs[0]['weight'] = 4000; return evs
+        ok = corrupt_tests('Demo', 'Trace_Demo', 'Trace_Demo.cfg', dem, None,
+                           [('valid run turned into an accepted invalid input (3 clauses)', d_invalid, ['accepted-invalid-input']), ('printed weight + 1', d_weight, ['printed-weight-not-optimum'])], wd) and ok
     finally:
         shutil.rmtree(wd, ignore_errors=True)
     print('selftest', 'OK' if ok else 'FAILED')
